@@ -51,6 +51,9 @@ type Obs struct {
 	Widths    []int    `json:"-"`
 }
 
+// modelGuard selects the variant of the Coq model the cases are checked against.
+const modelGuard = false
+
 var texts = []string{
 	"SELECT v FROM items WHERE id >= ? ORDER BY id",
 	"SELECT id FROM items WHERE v >= ? ORDER BY id",
@@ -288,7 +291,9 @@ func gEv(e Ev) string {
 
 func term(in Input, o Obs) string {
 	progs := lib.ListOf(in.Progs, func(p []Op) string { return lib.ListOf(p, gOp) })
-	return lib.App("mk_case", progs, lib.ListOf(o.Trace, gEv), lib.Bool(o.Hang),
+	// first field: which variant of prepare_stmt.go the model is run as (false = as it is;
+	// true once the guarded-delete patch is in /repo)
+	return lib.App("mk_case", lib.Bool(modelGuard), progs, lib.ListOf(o.Trace, gEv), lib.Bool(o.Hang),
 		lib.Nat(o.Leaked), lib.Nat(o.OpenStmts), lib.Nat(o.WrongRows))
 }
 
